@@ -48,6 +48,7 @@ type vfScenario struct {
 	Edges    [][]string             `json:"edges"` // [from, to, kind]  kind: cd (default) | c | d
 	Branches []vfBranch             `json:"branches"`
 	Max      int                    `json:"max"`
+	RMax     int                    `json:"rmax"` // per-call step limit (WithRuntimeMaxSteps) given at every call of the top-level graph; 0: none
 	Before   []string               `json:"before"`
 	After    []string               `json:"after"`
 	Rerun    []string               `json:"rerun"`
@@ -1115,6 +1116,9 @@ func (r *vfRun) drive(rc *vfCall, run Runnable[map[string]any, map[string]any], 
 		if !sc.NoID {
 			opts = append(opts, WithCheckPointID("cp-"+rc.id))
 		}
+		if sc.RMax > 0 {
+			opts = append(opts, WithRuntimeMaxSteps(sc.RMax))
+		}
 		o := r.call(rc, run, paradigm, opts)
 		sets := store.takeSets(rc.id)
 		switch {
@@ -1203,8 +1207,13 @@ func vfCaseLine(sc *vfScenario) map[string]any {
 	for _, k := range subNames {
 		subs = append(subs, map[string]any{"node": k, "g": vfCaseLine(sc.Sub[k])})
 	}
+	// (the limit in force for the described graph: a per-call limit overrides the compiled one; it is not handed down to nested graphs)
+	max := sc.Max
+	if sc.RMax > 0 {
+		max = sc.RMax
+	}
 	return map[string]any{"ev": "case", "id": sc.ID, "mode": sc.Mode, "nodes": vfL(sc.Nodes), "edges": edges, "branches": brs,
-		"max": sc.Max, "before": vfL(sc.Before), "after": vfL(sc.After), "rerun": vfL(sc.Rerun), "state": sc.State,
+		"max": max, "before": vfL(sc.Before), "after": vfL(sc.After), "rerun": vfL(sc.Rerun), "state": sc.State,
 		"fail": fails, "noid": sc.NoID, "subs": subs, "calls": vfL(sc.Calls), "post": sc.Post, "hmod": sc.HMod, "echo": vfL(sc.Echo), "x0": "x", "bare": vfL(vfBareList(sc)), "lower": sc.Lower}
 }
 
